@@ -157,6 +157,7 @@ def sparse_getitem(sparse, idxs):
 
     for i, idx in list(enumerate(idxs))[::-1]:
         if isinstance(idx, int):
+            idx = idx + size[i] if idx < 0 else idx
             del size[i]
             mask = indices[i].eq(idx)
             if torch.any(mask):
